@@ -32,6 +32,9 @@ type Contract struct {
 	Requires    []*Clause
 	Ensures     []*Clause
 	Loops       map[int]*LoopSpec
+	Det         bool                 // `deterministic`: results and written memory are a function of the argument VALUES (checked: #frame:det)
+	OrderFree   bool                 // `orderfree`: may range over a map; its own contract carries the order-independence argument
+	DetCallbacks map[string]bool     // callback NAME deterministic
 	Pure        bool                 // callee does not modify the heap (assumed for externals, checked by #frame for module functions)
 	Trusted     bool                 // contract is assumed, body not verified (listed in evidence)
 	Mode        string               // "", "bitvector", "fp"
@@ -80,6 +83,8 @@ type ContractDB struct {
 	pureFields map[string]bool // "pkg.Struct.field": function-typed field whose values are pure functions
 	typeinv map[string][]*Clause // receiver prefix "(*pkg.T)" -> invariant over `self`, required and ensured by every method
 	specFn map[string]*SpecFn
+	detIface map[string]bool // iface pkg.I.M: deterministic
+	sealed   map[string]string // sealed interface -> its only implementation
 }
 
 type SpecFn struct {
@@ -95,7 +100,7 @@ type PredDef struct {
 }
 
 func newContractDB() *ContractDB {
-	return &ContractDB{byFunc: map[string]*Contract{}, preds: map[string]*PredDef{}, specFn: map[string]*SpecFn{}, typeinv: map[string][]*Clause{}, pureFields: map[string]bool{}, nonnilFields: map[string]bool{}, pureIface: map[string]bool{}, nonnilIface: map[string]bool{}, ifacePreserves: map[string][]string{}, effectFns: map[string]bool{}, closedTerms: map[string]bool{}, pureFns: map[string]bool{}, effectPkgs: map[string]bool{}, observers: map[string]bool{}}
+	return &ContractDB{byFunc: map[string]*Contract{}, preds: map[string]*PredDef{}, specFn: map[string]*SpecFn{}, detIface: map[string]bool{}, sealed: map[string]string{}, typeinv: map[string][]*Clause{}, pureFields: map[string]bool{}, nonnilFields: map[string]bool{}, pureIface: map[string]bool{}, nonnilIface: map[string]bool{}, ifacePreserves: map[string][]string{}, effectFns: map[string]bool{}, closedTerms: map[string]bool{}, pureFns: map[string]bool{}, effectPkgs: map[string]bool{}, observers: map[string]bool{}}
 }
 
 func splitTags(kw string) (string, []string) {
@@ -204,6 +209,13 @@ func (db *ContractDB) load(path string) error {
 			for _, n := range strings.Fields(rest) {
 				db.pureFns[n] = true
 			}
+		case "sealed":
+			// sealed pkg.Iface: *pkg.T   -- the interface has an unexported method and T is its only implementation
+			nm, impl, ok := strings.Cut(rest, ":")
+			if !ok {
+				panic(fmt.Sprintf("%s:%d: sealed pkg.Iface: *pkg.T", path, ln))
+			}
+			db.sealed[strings.TrimSpace(nm)] = strings.TrimSpace(impl)
 		case "closedterm":
 			for _, n := range strings.Fields(rest) {
 				db.closedTerms[n] = true
@@ -224,6 +236,10 @@ func (db *ContractDB) load(path string) error {
 			// iface pkg.Iface.Method: pure
 			nm, what, _ := strings.Cut(rest, ":")
 			what = strings.TrimSpace(what)
+			if what == "deterministic" {
+				db.detIface[strings.TrimSpace(nm)] = true
+				break
+			}
 			if what != "pure" && what != "pure nonnil" && !strings.HasPrefix(what, "preserves ") {
 				panic(fmt.Sprintf("%s:%d: iface supports only pure / pure nonnil", path, ln))
 			}
@@ -283,6 +299,12 @@ func (db *ContractDB) load(path string) error {
 		case "pure":
 			need()
 			cur.Pure = true
+		case "deterministic":
+			need()
+			cur.Det = true
+		case "orderfree":
+			need()
+			cur.OrderFree = true
 		case "may_panic":
 			need()
 			cur.MayPanic = true
@@ -342,6 +364,11 @@ func (db *ContractDB) load(path string) error {
 				cur.Callback[name] = append(cur.Callback[name], parse(ex))
 			case "requires":
 				cur.CallbackPre[name] = append(cur.CallbackPre[name], parse(ex))
+			case "deterministic":
+				if cur.DetCallbacks == nil {
+					cur.DetCallbacks = map[string]bool{}
+				}
+				cur.DetCallbacks[name] = true
 			case "pure":
 				if cur.PureCallbacks == nil {
 					cur.PureCallbacks = map[string]bool{}
@@ -724,8 +751,13 @@ func (p *parser) primary() Expr {
 			return &EForall{v, p.impl(), "Str"}
 		case "existsStr":
 			v := p.next().s
+			var w Expr
+			if t := p.peek(); t.k == "ident" && t.s == "witness" {
+				p.next()
+				w = p.add()
+			}
 			p.expect(":")
-			return &EExists{v, p.impl(), "Str", nil}
+			return &EExists{v, p.impl(), "Str", w}
 		case "exists":
 			v := p.next().s
 			var w Expr
